@@ -63,8 +63,11 @@ func runRobustParse(rc *RunCtx) *Violation {
 		}
 	})
 	cbPlan = nil
+	participle.MaxIterations = defaultMaxIterations
 	return v
 }
+
+var defaultMaxIterations = participle.MaxIterations
 
 func robustOne(rc *RunCtx) *Violation {
 	w := robustWorlds[simrt.Choose(len(robustWorlds))]
@@ -84,6 +87,12 @@ func robustOne(rc *RunCtx) *Violation {
 	filename := "in.txt"
 	if simrt.Choose(4) == 1 {
 		filename = ""
+	}
+	// a documented tuning knob: the repetition limit (single task here, restored after the run)
+	if simrt.Choose(6) == 1 {
+		participle.MaxIterations = []int{3, 9, 40}[simrt.Choose(3)]
+		variant += fmt.Sprintf(" MaxIterations=%d", participle.MaxIterations)
+		rc.probe("small MaxIterations")
 	}
 	// callback outcome plan
 	var plan *cbPlanT
